@@ -10,7 +10,7 @@ NOTES = 'Exit codes of ./check: 0 all obligations discharged; 1 VIOLATION (defin
 PENDING = 'check not built yet in this session (planned in DESIGN.md section 5)'
 NOT_APPLICABLE = {
     'C01': PENDING, 'C02': PENDING, 'C03': PENDING, 'C05': PENDING, 'C06': PENDING, 'C07': PENDING, 'C08': PENDING,
-    'C09': PENDING, 'C10': PENDING, 'C14': PENDING, 'C15': PENDING, 'C16': PENDING, 'C18': PENDING, 'C19': PENDING,
+    'C09': PENDING, 'C10': PENDING, 'C14': PENDING, 'C15': PENDING, 'C16': PENDING, 'C18': PENDING, ,
     'C11': 'numerical accuracy of a 1000-bin f32 convolution against an exact enumeration over K^M words: floats are uninterpreted in Verus and the convolution is out of reach of CBMC; no contract within reach expresses or decides it (DESIGN.md 5/C11)',
     'C12': 'HashMap<i64,f64> dynamic programming bounded by exact tail probabilities of the true score distribution: a protocol-level real-number argument (TFM-PVALUE paper), not expressible over the real code with Verus (opaque floats, no HashMap iteration specs) or Kani (unbounded loops over float maps) (DESIGN.md 5/C12)',
     'C13': 'same algorithm and obstacle as C12 (score thresholds from the same f64 HashMap recurrences) (DESIGN.md 5/C13)',
@@ -18,6 +18,12 @@ NOT_APPLICABLE = {
 }
 
 CHECKS = {
+    'C19': {
+        'text': 'Unbounded deductive proof (Verus) on the verbatim bodies of DenseMatrix::{new, with_capacity, resize, reserve, rows, columns, capacity, Index/IndexMut<usize>, Index/IndexMut<MatrixCoordinates>} with the real struct layout: the representation invariant is established by constructors and preserved by every operation from an arbitrary pre-state (hence for all histories); resize keeps old rows over the whole view and fills new rows with the default; index_mut changes exactly one row/cell (frame). Layout facts (stride, alignment) and the unsafe constructors are checked by Kani (complete for the listed (T,C) instances / bounded for unsafe code).',
+        'design_ref': 'DESIGN.md section 5, C19',
+        'note': 'Trusted: Verus/Z3; GenericArray ~ [T;N] (A-GA1); Vec::resize_with spec (A-V1); derived Clone/PartialEq/Default field-wise (A-D1, not verified); iterators Iter/IterMut are macro-generated closures and are not under contract.',
+        'technique': 'contract-based deductive verification (Verus, real bodies extracted per run) + Kani layout harnesses',
+    },
     'C04': {
         'text': 'Unbounded deductive proof (Verus) of contracts on the verbatim bodies of StripedSequence::configure_wrap/configure/Index/count_symbol(s) and Stripe::stripe/stripe_into: for all lengths, contents, column counts and call histories the matrix is the column-major striping of the sequence, look-ahead rows are the shifted rows, and indexing/counting agree with the linear sequence. AVX2 striping is only covered by a bounded Kani stand-in (thorough tier, reported under coverage.bounded, never counted as discharged).',
         'design_ref': 'DESIGN.md section 5, C04',
